@@ -54,11 +54,11 @@ def interpret_curl(argv):
                     out["header_files"].append(v[1:])
                 elif ":" in v:
                     name, val = v.split(":", 1)
-                    val = val.lstrip(" \t\r\n\v\f")  # curl skips ISSPACE() characters after the colon
-                    if val == "":
+                    # curl decides "blank" by skipping ISSPACE() characters after the colon; a non-blank line is sent verbatim
+                    if val.lstrip(" \t\r\n\v\f") == "":
                         out["removed"].append(name)
                     else:
-                        out["headers"].append((name, val))
+                        out["headers"].append((name, val.lstrip(" \t")))
                 elif v.endswith(";"):
                     out["headers"].append((v[:-1], ""))
                 else:
